@@ -8,6 +8,7 @@ from markupsafe import escape
 
 from liquid2.builtin import Blank
 from liquid2.builtin import Empty
+from liquid2.limits import to_str
 
 # NOTE: liquid2.builtin.expressions has a version of this too.
 
@@ -21,7 +22,7 @@ def to_liquid_string(val: Any, *, auto_escape: bool = False) -> str:
     elif val is None:
         val = ""
     elif isinstance(val, range):
-        val = f"{val.start}..{val.stop - 1}"
+        val = f"{to_str(val.start)}..{to_str(val.stop - 1)}"
     elif isinstance(val, Sequence):
         if auto_escape:
             val = Markup("").join(
@@ -32,7 +33,7 @@ def to_liquid_string(val: Any, *, auto_escape: bool = False) -> str:
     elif isinstance(val, (Empty, Blank)):
         val = ""
     else:
-        val = str(val)
+        val = to_str(val)
 
     if auto_escape:
         val = escape(val)
